@@ -132,6 +132,8 @@ def _merge_enums(a: List[any], b: List[any]) -> List[any]:
     # TODO: we assume string lists, we is not generic
     # JSON tells booleans from numbers (true != 1), Python's == does not
     def key(value):
+        if isinstance(value, (list, dict)):
+            raise NormalizationException(f"Cannot merge enums with non-scalar value {value}")
         return (isinstance(value, bool), value)
     keys_b = set(key(i) for i in b)
     result = {}
